@@ -767,13 +767,98 @@ class GVec:
         return f"GVec({self.c})"
 
 
+def _triple(a, b, c):
+    """scalar triple product [a,b,c] of plain base vectors as a canonical signed constant."""
+    if a == b or b == c or a == c:
+        return 0
+    names = [a, b, c]
+    sign = 1
+    for i in range(3):  # bubble sort, counting transpositions
+        for j in range(2 - i):
+            if names[j] > names[j + 1]:
+                names[j], names[j + 1] = names[j + 1], names[j]
+                sign = -sign
+    return sign * SNum(z3.Real("T<%s.%s.%s>" % tuple(names)))
+
+
+def gram_scalar(ka, kb):
+    """<ka, kb> for base keys that are plain names or ('x', a, b) = a x b."""
+    ca, cb = isinstance(ka, tuple), isinstance(kb, tuple)
+    if not ca and not cb:
+        return SNum(ctx().gram(ka, kb))
+    if ca and not cb:
+        return _triple(ka[1], ka[2], kb)
+    if cb and not ca:
+        return _triple(kb[1], kb[2], ka)
+    G = lambda u, v: SNum(ctx().gram(u, v))
+    return G(ka[1], kb[1]) * G(ka[2], kb[2]) - G(ka[1], kb[2]) * G(ka[2], kb[1])  # Lagrange identity
+
+
+def _cross_base(p, q):
+    """p x q as a dict {base key: coefficient}."""
+    cp, cq = isinstance(p, tuple), isinstance(q, tuple)
+    if not cp and not cq:
+        if p == q:
+            return {}
+        return {("x", p, q): 1} if p < q else {("x", q, p): -1}
+    if cp and not cq:  # (a x b) x c = b (a.c) - a (b.c)
+        a, b = p[1], p[2]
+        return {b: gram_scalar(a, q), a: -gram_scalar(b, q)}
+    if cq and not cp:  # c x (a x b) = a (c.b) - b (c.a)
+        a, b = q[1], q[2]
+        return {a: gram_scalar(p, b), b: -gram_scalar(p, a)}
+    a, b, c, d = p[1], p[2], q[1], q[2]  # (a x b) x (c x d) = c [a,b,d] - d [a,b,c]
+    return {c: _triple(a, b, d), d: -_triple(a, b, c)}
+
+
+def gcross(u, v):
+    out = {}
+    for ku, cu in u.c.items():
+        for kv, cv in v.c.items():
+            for k, c in _cross_base(ku, kv).items():
+                t = (cu * cv) * c
+                out[k] = out[k] + t if k in out else t
+    return GVec(out)
+
+
 def gdot(a, b):
     tot = 0
     for ka, va in a.c.items():
         for kb, vb in b.c.items():
-            g = SNum(ctx().gram(ka, kb))
+            g = gram_scalar(ka, kb)
+            if is_num(g) and g == 0:
+                continue
             tot = tot + (va * vb) * g
     return tot
+
+
+class GFrame:
+    """array([e1, e2, e3]) of abstract vectors (rows), or its transpose (columns)."""
+    __array_priority__ = 2500
+    __array_ufunc__ = None
+    shape = (3, 3)
+    ndim = 2
+
+    def __init__(self, vecs, transposed=False):
+        self.vecs, self.transposed = list(vecs), transposed
+
+    @property
+    def T(self):
+        return GFrame(self.vecs, not self.transposed)
+
+    def apply(self, x):
+        if not self.transposed:  # rows e_i: (E x)_i = e_i . x
+            if not isinstance(x, GVec):
+                raise Unsupported("frame rows applied to a coordinate vector")
+            return np.array([gdot(e, x) for e in self.vecs], dtype=object)
+        if isinstance(x, GVec):
+            raise Unsupported("frame columns applied to an abstract vector")
+        x = np.asarray(x, dtype=object).ravel()
+        acc = None
+        for e, xi in zip(self.vecs, x):
+            t = e * xi
+            acc = t if acc is None else acc + t
+        return acc
 
 
 def gnorm(a):
